@@ -68,6 +68,12 @@ def build(S):
     S.under_contract(FN_RD, FN_RS, "hypnotoad.core.equilibrium:Equilibrium.resetNonorthogonalOptions", "hypnotoad.core.mesh:MeshRegion.distributePointsNonorthogonal")
     S.assume("history independence itself is explored, not proved: sequences of 1-4 setting changes on a non-orthogonal lower single null, positions compared at 1e-6 and geometry at 1e-5 relative with a mesh built from scratch")
     native_obligations(S)
+    # the distribution made once per fresh mesh (and frozen afterwards) must depend on the general
+    # spacing options only, the regridded one on the nonorthogonal_* options only: getSpacings'
+    # selection, decided exactly for every leg and kind
+    from . import C10
+
+    C10.spacing_selection(S)
 
 
 def post(S):
